@@ -388,10 +388,10 @@ type extractor struct {
 	inline   int
 	retVal   *sval
 	retSet   bool
-	retVals  []*sval        // all results of the last return of an inlined body
-	multiRet []*sval        // results of the last inlined call (for a, b := helper())
-	stack    []*types.Func  // helpers being inlined (no recursion)
-	named    []types.Object // named results of the helper being inlined
+	retVals  []*sval                       // all results of the last return of an inlined body
+	multiRet []*sval                       // results of the last inlined call (for a, b := helper())
+	stack    []*types.Func                 // helpers being inlined (no recursion)
+	named    []types.Object                // named results of the helper being inlined
 	alias    map[types.Object]types.Object // parameter of an inlined helper -> the caller's variable passed for it
 	nscan    int
 }
@@ -1244,6 +1244,19 @@ func (x *extractor) inlinable(f *types.Func) *ast.FuncDecl {
 		case *ast.ReturnStmt:
 			if ast.Stmt(n) != last {
 				ok = false // an early return: the rest of the body is conditional
+			}
+		case *ast.SelectorExpr:
+			// a helper that touches the coordinates of a point works below the
+			// level of group operations: its effect is invisible to the skeleton,
+			// so it must stay an (opaque, compared) call
+			if sel := x.info.Selections[n]; sel != nil && sel.Kind() == types.FieldVal && x.kn.isPointType(sel.Recv()) {
+				ok = false
+			}
+		case *ast.StarExpr:
+			if tv, has := x.info.Types[n]; has && tv.Type != nil && x.kn.isPointType(tv.Type) {
+				if _, isPtr := tv.Type.(*types.Pointer); !isPtr {
+					ok = false // *p = ... / ... = *p on a point: a raw copy
+				}
 			}
 		}
 		if _, isStmt := n.(ast.Stmt); isStmt {
